@@ -12,11 +12,12 @@ LEVEL = "exploration"
 N_QUICK, N_THOROUGH = 8000, 300000
 T_QUICK, T_THOROUGH = 70, 1500
 OPS = ["set-scalar", "set-string", "set-array", "set-array-element", "set-nested", "set-ref-same", "set-ref-other",
-       "copy", "move", "move-refused-nested", "move-refused-refs", "write-through-shared"]
+       "copy", "move", "move-refused-nested", "move-refused-refs", "write-through-shared", "ref-to-nested-part-then-rebind"]
 FLOORS = {"histories": 1500, "steps": 15000, "object_comparisons": 60000, "renamed_fields_compared": 5000,
           "growths": 300, "three_level_families": 300, "nested_copy_duplicated_referent": 40,
           "copy_duplicated_referent": 60}
 FLOORS.update({"op:" + o: 250 for o in OPS})
+FLOORS["op:ref-to-nested-part-then-rebind"] = 60
 RULE = ("generated hybrid class families (2-3 levels: scalars, strings, numeric arrays of any shape, nested hybrids, "
         "references to hybrids, renamed fields) in two buffers; histories of <=20 steps over {set scalar/string/array/"
         "array element (also inside nested dressed parts), assign dressed object to a nested field (same/other buffer), "
@@ -244,6 +245,41 @@ def _step(w, rng, vg, op, tracked, envs, specs, outer, new_obj, hist, viol):
                 viol("cross-buffer-reference-accepted", "assigning an object of another buffer to a reference field did not raise")
             except MemoryError:
                 pass
+        return True
+    if op == "ref-to-nested-part-then-rebind":
+        # a nested part of one object becomes, for a while, the target of a reference field of another object; when
+        # the reference is bound to something else again the part is still nested: it must stay unmovable
+        pick = _pick_sub(rng, tracked, lambda s: bool(fields_of(s, "ref")))
+        if pick is None:
+            return False
+        t, pp, xp, spec, mv, obj = pick
+        xn, pn, _, sub, _d = rng.choice(fields_of(spec, "ref"))
+        parts = []
+        for t2 in tracked.values():
+            if t2.dead or t2.obj is None:
+                continue
+            for pp2, xp2, spec2, mv2, obj2 in subobjects(t2):
+                if pp2 and spec2 is sub and obj2._buffer is obj._buffer and obj2 is not obj:
+                    parts.append((t2, pp2, mv2, obj2))
+        if not parts:
+            return False
+        t2, pp2, mv2, part = rng.choice(parts)
+        setattr(obj, pn, part)
+        got = getattr(obj, pn)
+        errs = compare_h(sub, mv2, got, lambda i: (tracked[i].spec, tracked[i].mv)) if got is not None else [("", "value|ref", "None")]
+        for p_, kind, detail in errs[:1]:
+            viol(f"reference-to-nested-part:{kind}", f"{p_}: {detail}")
+        tgt = new_obj(sub, t.env, buf=obj._buffer)
+        setattr(obj, pn, tgt.obj)
+        tgt.referenced = True
+        _set_model(t, xp, xn, tgt.i)
+        env = [e for e in envs if e.buf is not part._buffer][0]
+        hist.append([op, f"#{t.i}." + ".".join(pp + [pn]), f"-> part {'.'.join(pp2)} of #{t2.i}, then -> #{tgt.i}"])
+        try:
+            part.move(_buffer=env.buf)
+            viol("move-of-nested-object-accepted-after-it-was-a-reference-target", ".".join(pp2))
+        except MemoryError:
+            pass
         return True
     if op == "write-through-shared":
         cand = [x for x in tracked.values() if x.referenced and not x.dead and x.obj is not None and [f for f in x.spec["fields"] if f[2] == "sc"]]
